@@ -26,8 +26,15 @@ VARIABLES l,        \* next trace line
           bad,      \* deviations found so far
           stats,    \* counters for the evidence file
           memo,     \* (query, exact input bits) -> exact result bits first observed
-          nexec     \* execution counter (number of resets seen)
-tvars == <<l, bad, stats, memo, nexec, objs>>
+          nexec,    \* execution counter (number of resets seen)
+          worst,    \* reason code -> largest observed error / tolerance (calibration headroom, reported in the evidence)
+          obs       \* object id -> last recorded observations (energy, energy gradient), for cross-object comparisons
+tvars == <<l, bad, stats, memo, nexec, obs, worst, objs>>
+KeepMemo == "VJ_KEEPMEMO" \in DOMAIN IOEnv /\ IOEnv.VJ_KEEPMEMO = "1"
+ObsPut(id, field, val) == obs' = [i \in DOMAIN obs \cup {id} |->
+                                   IF i = id THEN (IF id \in DOMAIN obs THEN [f \in DOMAIN obs[id] \ {field} |-> obs[id][f]] ELSE << >>) @@ (field :> val)
+                                   ELSE obs[i]]
+ObsHas(id, field) == id \in DOMAIN obs /\ field \in DOMAIN obs[id]
 
 Has(r, f) == f \in DOMAIN r
 H(x) == RFromHex(x)
@@ -80,11 +87,33 @@ ProblemOf(ev) == [s |-> SOf(ev.order), T |-> HV(ev.out.tsegs), P |-> HM(ev.P),
 
 (* ------------------------------ deviations ---------------------------- *)
 \* candidates are records with a boolean field ok; the failing ones become deviations
-Cand(prop, code, ok, info) == [prop |-> prop, code |-> code, ok |-> ok, info |-> info]
+Cand(prop, code, ok, info) == [prop |-> prop, code |-> code, ok |-> ok, info |-> info, m |-> Zero]
+\* numeric candidate: err <= tol, remembering err / tol
+CandM(prop, code, err, tol, info) == [prop |-> prop, code |-> code, ok |-> RLe(err, tol), info |-> info,
+                                      m |-> IF tol = Zero THEN (IF err = Zero THEN Zero ELSE "1000000") ELSE RDiv(err, tol)]
+\* fold over the (already evaluated) candidates; every step is forced, or TLC's lazy evaluation makes the fold exponential
+UpdWorst(w0, cands0, start) ==
+    LET cs == TLCEval(cands0)
+        F[i \in 0..Len(cs)] ==
+            IF i = 0 THEN w0
+            ELSE LET c == cs[i]
+                     k == c.prop \o ":" \o c.code
+                     w == F[i - 1]
+                 IN IF c.m = Zero THEN w
+                    ELSE IF k \in DOMAIN w THEN (IF RLt(w[k], c.m) THEN [w EXCEPT ![k] = c.m] ELSE w)
+                    ELSE w @@ (k :> c.m)
+    IN F[Len(cs)]
 Fails(cands) == SelectSeq(cands, LAMBDA c : ~c.ok)
 Mk(c, ev) == [prop |-> c.prop, code |-> c.code, info |-> c.info, line |-> l, exec |-> nexec,
               obj |-> IF Has(ev, "obj") THEN ev.obj ELSE 0]
 Devs(cands, ev) == LET f == Fails(cands) IN [i \in 1..Len(f) |-> Mk(f[i], ev)]
+\* evaluate the candidates ONCE (TLC re-evaluates a LET definition at every use inside an action), then record
+\* the failing ones, the headroom and the number of judgements made
+JudgeAll(cands, ev, st) ==
+    LET cs == TLCEval(cands)
+    IN /\ bad' = bad \o Devs(cs, ev)
+       /\ worst' = UpdWorst(worst, cs, 1)
+       /\ stats' = (IF "judgements" \in DOMAIN st THEN [st EXCEPT !["judgements"] = @ + Len(cs)] ELSE st @@ ("judgements" :> Len(cs)))
 Bump(st, key, n) == IF key \in DOMAIN st THEN [st EXCEPT ![key] = @ + n] ELSE st @@ (key :> n)
 
 \* flatten a sequence of sequences
@@ -127,8 +156,8 @@ ResCands(ev, pr, C) ==
             LET rw == ResVal(r.res, PhiW)  ra == ResVal(r.res, PhiA)
                 info(x) == [order |-> ev.order, dim |-> ev.dim, N |-> NSeg(pr), kind |-> r.kind, i |-> r.i, d |-> r.d,
                             col |-> r.col, res |-> RShow(x), ratio |-> rat]
-            IN (IF w THEN <<Cand(IF r.kind = "cont" THEN "C02" ELSE "C01", "res." \o r.kind, RLe(rw, Tol6), info(rw))>> ELSE <<>>)
-               \o (IF a THEN <<Cand("C18", "res." \o r.kind, RLe(ra, Tol3), info(ra))>> ELSE <<>>)
+            IN (IF w THEN <<CandM(IF r.kind = "cont" THEN "C02" ELSE "C01", "res." \o r.kind, rw, Tol6, info(rw))>> ELSE <<>>)
+               \o (IF a THEN <<CandM("C18", "res." \o r.kind, ra, Tol3, info(ra))>> ELSE <<>>)
     IN Flat([q \in 1..Len(R) |-> one(R[q])])
 
 \* coefficient-wise agreement with the exact minimiser, in position units (DESIGN s4)
@@ -139,7 +168,7 @@ MinCands(ev, pr, C, Cx) ==
                 im == SegPoly(C, s, i, col)
                 mag == RMax(RMaxSeq([k \in 1..(2 * s) |-> RAbs(RMul(ex[k], RPow(pr.T[i], k - 1)))]), PScale(pr, col))
                 err == RMaxSeq([k \in 1..(2 * s) |-> RAbs(RMul(RSub(im[k], ex[k]), RPow(pr.T[i], k - 1)))])
-            IN Cand("C02", "min.coef", RLe(err, RAdd(RMul(Tol6, mag), Tiny)),
+            IN CandM("C02", "min.coef", err, RAdd(RMul(Tol6, mag), Tiny),
                     [order |-> ev.order, dim |-> ev.dim, N |-> N, i |-> i, col |-> col, err |-> RShow(err), mag |-> RShow(mag)])
     IN [q \in 1..(N * D) |-> LET i == ((q - 1) \div D) + 1 IN seg(i, q - (i - 1) * D)]
 
@@ -164,8 +193,8 @@ Advance == l' = l + 1
 TrReset ==
     /\ IsEvent("reset")
     /\ Reset
-    /\ memo' = << >> /\ nexec' = nexec + 1
-    /\ bad' = bad /\ stats' = Bump(stats, "executions", 1)
+    /\ memo' = (IF KeepMemo THEN memo ELSE << >>) /\ nexec' = nexec + 1 /\ obs' = << >>
+    /\ bad' = bad /\ stats' = Bump(stats, "executions", 1) /\ UNCHANGED worst
     /\ Advance
 
 TrBuild ==
@@ -175,7 +204,7 @@ TrBuild ==
                  /\ Len(ev.out.tsegs) = Len(IF ByDurs(ev) THEN ev.T ELSE SubSeq(ev.tp, 2, Len(ev.tp)))
        IN IF ~ok
           THEN /\ bad' = bad \o Devs(<<Cand("C01", "build.failed", FALSE, [order |-> ev.order, dim |-> ev.dim])>>, ev)
-               /\ UNCHANGED <<objs, memo>> /\ stats' = Bump(stats, "builds", 1)
+               /\ UNCHANGED <<objs, memo, worst>> /\ stats' = Bump(stats, "builds", 1)
           ELSE LET pr == TLCEval(ProblemOf(ev))
                    C == TLCEval(HM(ev.out.coef))
                    pre == IF WantExact(ev, pr) /\ JGrad THEN TLCEval(AdjointPre(pr)) ELSE <<>>
@@ -191,11 +220,10 @@ TrBuild ==
                IN /\ Build(ev.obj, [order |-> ev.order, dim |-> ev.dim, key |-> key, t0 |-> T0Of(ev), pr |-> pr,
                                      C |-> C, Cx |-> Cx, pre |-> pre, coefbits |-> ev.out.coef, bp |-> HV(ev.out.cum)],
                            NSeg(pr), ev.how \in {"ctor_durs", "ctor_pts"})
-                  /\ bad' = bad \o Devs(cands, ev)
+                  /\ JudgeAll(cands, ev, Bump(Bump(stats, "builds", 1), IF Cx # <<>> THEN "exact_solves" ELSE "builds_without_exact", 1))
                   /\ memo' = MemoPut(MemoPut(memo, kc, ev.out.coef), ks, vs)
-                  /\ stats' = Bump(Bump(Bump(stats, "builds", 1), "judgements", Len(cands)),
-                                   IF Cx # <<>> THEN "exact_solves" ELSE "builds_without_exact", 1)
     /\ UNCHANGED nexec
+    /\ UNCHANGED obs
     /\ Advance
 
 \* re-reading the published state must give the bits of the build
@@ -205,9 +233,9 @@ TrState ==
            o == TLCEval(objs[ev.obj].data)
            cands == <<Cand("C10", "state.coef", ev.out.coef = o.coefbits, [order |-> o.order, dim |-> o.dim])>>
        IN /\ Query(ev.obj, "state")
-          /\ bad' = bad \o Devs(cands, ev)
-          /\ stats' = Bump(stats, "judgements", 1)
+          /\ JudgeAll(cands, ev, stats)
     /\ UNCHANGED <<memo, nexec>>
+    /\ UNCHANGED obs
     /\ Advance
 
 \* value and derivatives at the knots (both sides)
@@ -244,9 +272,9 @@ TrKnots ==
            sd == Cand("C01", "knot.segdur", Len(ev.out.segdur) = N /\ \A i \in 1..N : H(ev.out.segdur[i]) = RNearest(RSub(o.bp[i + 1], o.bp[i])), info("sd", 0, 0))
            cands == <<sd>> \o (IF w THEN kpos \o lpos \o rpos \o bstart \o bend \o both ELSE <<>>)
        IN /\ Query(ev.obj, "knots")
-          /\ bad' = bad \o Devs(cands, ev)
-          /\ stats' = Bump(Bump(stats, "knot_queries", 1), "judgements", Len(cands))
+          /\ JudgeAll(cands, ev, Bump(stats, "knot_queries", 1))
     /\ UNCHANGED <<memo, nexec>>
+    /\ UNCHANGED obs
     /\ Advance
 
 \* energy = exact integral of the squared s-th derivative of the PUBLISHED polynomials (any positive durations)
@@ -261,14 +289,14 @@ TrEnergy ==
            info == [order |-> o.order, dim |-> o.dim, N |-> NSeg(pr), got |-> RShow(got), want |-> RShow(ex)]
            key == <<"energy", o.key>>
            cands == IF RIsFiniteHex(ev.out.val) /\ AllPos(pr.T)
-                    THEN <<Cand("C04", "energy.value", RLe(RAbs(RSub(got, ex)), RAdd(RMul(Tol9, ab), Tiny)), info),
+                    THEN <<CandM("C04", "energy.value", RAbs(RSub(got, ex)), RAdd(RMul(Tol9, ab), Tiny), info),
                            Cand("C04", "energy.nonneg", RLe(RNeg(RAdd(RMul(Tol9, ab), Tiny)), got), info),
                            MemoCand("C10", "memo.energy", key, ev.out.val, info)>>
                     ELSE <<Cand("C04", "energy.finite", ~AllPos(pr.T), info)>>
        IN /\ QueryRecord(ev.obj, "energy", ev.out.val)
-          /\ bad' = bad \o Devs(cands, ev)
+          /\ JudgeAll(cands, ev, Bump(stats, "energy_queries", 1))
           /\ memo' = MemoPut(memo, key, ev.out.val)
-          /\ stats' = Bump(Bump(stats, "energy_queries", 1), "judgements", Len(cands))
+          /\ ObsPut(ev.obj, "energy", ev.out.val)
     /\ UNCHANGED nexec
     /\ Advance
 
@@ -287,32 +315,33 @@ TrEval ==
                            \A col \in 1..o.dim : WithinUlps(H(ev.out.val[col]), want[col], RAdd(mag[col], Tiny), 64), info),
                       MemoCand("C10", "memo.eval", key, ev.out.val, info)>>
        IN /\ Query(ev.obj, "eval")
-          /\ bad' = bad \o Devs(cands, ev)
+          /\ JudgeAll(cands, ev, Bump(stats, "evals", 1))
           /\ memo' = MemoPut(memo, key, ev.out.val)
-          /\ stats' = Bump(Bump(stats, "evals", 1), "judgements", Len(cands))
     /\ UNCHANGED nexec
+    /\ UNCHANGED obs
     /\ Advance
 
 (* ------------------------------ gradients ---------------------------- *)
 \* |got - want| <= 1e-6 * S + tiny, entry-wise
 GClose(got, want, S) == RLe(RAbs(RSub(got, want)), RAdd(RMul(Tol6, S), Tiny))
 \* compare a logged Gradients structure with an exact adjoint result
+\* worst entry of a vector comparison as a numeric candidate
+VecCandM(prop, code, got, want, S, info) ==
+    LET fr == [c \in 1..Len(want) |-> RDiv(RAbs(RSub(H(got[c]), want[c])), RAdd(RMul(Tol6, S[c]), Tiny))]
+    IN CandM(prop, code, RMaxSeq(fr), One, info)
 GradCands(prop, code, o, out, g) ==
     LET pr == o.pr  s == pr.s  N == NSeg(pr)  D == Dim(pr)
         info(part, i) == [order |-> o.order, dim |-> o.dim, N |-> N, part |-> part, i |-> i]
         names == <<"v", "a", "j">>
         shape == Len(out.times) = N /\ Len(out.inner) = N - 1 /\ FinV(out.times) /\ FinM(out.inner)
     IN IF ~shape THEN <<Cand(prop, code \o ".shape", FALSE, info("shape", 0))>>
-       ELSE [i \in 1..N |-> Cand(prop, code \o ".times", GClose(H(out.times[i]), g.times[i], g.timesS[i]),
+       ELSE [i \in 1..N |-> CandM(prop, code \o ".times", RAbs(RSub(H(out.times[i]), g.times[i])), RAdd(RMul(Tol6, g.timesS[i]), Tiny),
                                   info("times", i) @@ [got |-> RShow(H(out.times[i])), want |-> RShow(g.times[i]), S |-> RShow(g.timesS[i])])]
-            \o [j \in 1..(N - 1) |-> Cand(prop, code \o ".inner",
-                     \A col \in 1..D : GClose(H(out.inner[j][col]), g.points[j + 1][col], g.pointsS[j + 1][col]), info("inner", j))]
-            \o <<Cand(prop, code \o ".start.p", \A col \in 1..D : GClose(H(out.gs.p[col]), g.points[1][col], g.pointsS[1][col]), info("start.p", 0)),
-                 Cand(prop, code \o ".end.p", \A col \in 1..D : GClose(H(out.ge.p[col]), g.points[N + 1][col], g.pointsS[N + 1][col]), info("end.p", 0))>>
-            \o [d \in 1..(s - 1) |-> Cand(prop, code \o ".start." \o names[d],
-                     \A col \in 1..D : GClose(H(out.gs[names[d]][col]), g.bs[d][col], g.bsS[d][col]), info("start." \o names[d], d))]
-            \o [d \in 1..(s - 1) |-> Cand(prop, code \o ".end." \o names[d],
-                     \A col \in 1..D : GClose(H(out.ge[names[d]][col]), g.be[d][col], g.beS[d][col]), info("end." \o names[d], d))]
+            \o [j \in 1..(N - 1) |-> VecCandM(prop, code \o ".inner", out.inner[j], g.points[j + 1], g.pointsS[j + 1], info("inner", j))]
+            \o <<VecCandM(prop, code \o ".start.p", out.gs.p, g.points[1], g.pointsS[1], info("start.p", 0)),
+                 VecCandM(prop, code \o ".end.p", out.ge.p, g.points[N + 1], g.pointsS[N + 1], info("end.p", 0))>>
+            \o [d \in 1..(s - 1) |-> VecCandM(prop, code \o ".start." \o names[d], out.gs[names[d]], g.bs[d], g.bsS[d], info("start." \o names[d], d))]
+            \o [d \in 1..(s - 1) |-> VecCandM(prop, code \o ".end." \o names[d], out.ge[names[d]], g.be[d], g.beS[d], info("end." \o names[d], d))]
 
 GradJudged(o) == JGrad /\ o.pre # <<>>
 
@@ -328,9 +357,9 @@ TrProp ==
                      THEN GradCands("C05", "prop", o, ev.out, TLCEval(AdjointWith(o.pr, o.pre, TLCEval(HM(ev.gdC)), TLCEval(HV(ev.gdT))))) ELSE <<>>)
                     \o <<MemoCand("C05", "memo.prop", key, ev.out, info)>>
        IN /\ Query(ev.obj, "prop")
-          /\ bad' = bad \o Devs(cands, ev)
+          /\ JudgeAll(cands, ev, Bump(Bump(stats, "props", 1), IF GradJudged(o) THEN "props_exact" ELSE "props_memo_only", 1))
           /\ memo' = MemoPut(memo, key, ev.out)
-          /\ stats' = Bump(Bump(Bump(stats, "props", 1), "judgements", Len(cands)), IF GradJudged(o) THEN "props_exact" ELSE "props_memo_only", 1)
+          /\ ObsPut(ev.obj, "prop", ev.out)
     /\ UNCHANGED nexec
     /\ Advance
 
@@ -355,10 +384,10 @@ TrEPartial ==
                               RLe(RAbs(RSub(H(ev.out.gdT[i]), wt[i])), RAdd(RMul(Tol9, wtA[i]), Tiny)), info("gdT", i))])
                     \o <<MemoCand("C10", "memo.epartial", key, ev.out, info("memo", 0))>>
        IN /\ Query(ev.obj, "epartial")
-          /\ bad' = bad \o Devs(cands, ev)
+          /\ JudgeAll(cands, ev, Bump(stats, "epartials", 1))
           /\ memo' = MemoPut(memo, key, ev.out)
-          /\ stats' = Bump(Bump(stats, "epartials", 1), "judgements", Len(cands))
     /\ UNCHANGED nexec
+    /\ UNCHANGED obs
     /\ Advance
 
 \* analytic total energy gradients (C06); prop_epartial: propagating the object's own partials reproduces them
@@ -375,26 +404,26 @@ TrEGrad ==
                                     TLCEval(AdjointWith(pr, o.pre, TLCEval(EnergyPartialC(o.Cx, pr.s, pr.T)), TLCEval(EnergyPartialT(o.Cx, pr.s, pr.T))))) ELSE <<>>)
                     \o <<MemoCand("C10", "memo." \o code, key, ev.out, info)>>
        IN /\ Query(ev.obj, IF ev.e = "egrad" THEN "egrad" ELSE "prop")
-          /\ bad' = bad \o Devs(cands, ev)
+          /\ JudgeAll(cands, ev, Bump(Bump(stats, "egrads", 1), IF GradJudged(o) THEN "egrads_exact" ELSE "egrads_memo_only", 1))
           /\ memo' = MemoPut(memo, key, ev.out)
-          /\ stats' = Bump(Bump(Bump(stats, "egrads", 1), "judgements", Len(cands)), IF GradJudged(o) THEN "egrads_exact" ELSE "egrads_memo_only", 1)
+          /\ ObsPut(ev.obj, code, ev.out)
     /\ UNCHANGED nexec
     /\ Advance
 
 TrCopy ==
     /\ IsEvent("copy")
     /\ Copy(Ev.dst, Ev.src)
-    /\ UNCHANGED <<bad, memo, nexec>> /\ stats' = Bump(stats, "copies", 1)
+    /\ UNCHANGED <<bad, memo, nexec, obs, worst>> /\ stats' = Bump(stats, "copies", 1)
     /\ Advance
 TrAssign ==
     /\ IsEvent("assign")
     /\ Assign(Ev.dst, Ev.src)
-    /\ UNCHANGED <<bad, memo, nexec>> /\ stats' = Bump(stats, "assigns", 1)
+    /\ UNCHANGED <<bad, memo, nexec, obs, worst>> /\ stats' = Bump(stats, "assigns", 1)
     /\ Advance
 TrDestroy ==
     /\ IsEvent("destroy")
     /\ Destroy(Ev.obj)
-    /\ UNCHANGED <<bad, memo, nexec>> /\ stats' = Bump(stats, "destroys", 1)
+    /\ UNCHANGED <<bad, memo, nexec, obs, worst>> /\ stats' = Bump(stats, "destroys", 1)
     /\ Advance
 
 \* harness directives (no library call): comparisons between objects of one execution, judged here
@@ -415,23 +444,112 @@ SameCands(ev) ==
                       \A i \in 1..(N + 1) : RLe(RAbs(RSub(a.bp[i], b.bp[i])), RMul(RInt(4 * N), RMul(Eps, RMax(big, Tiny)))),
                       [order |-> a.order, dim |-> a.dim, N |-> N])>>
 
+\* coefficient matrices X and Y (same shape) agree in position units, relative to the larger of their own magnitude and the data scale
+CoefClose(prop, code, pr, X, Y, tol, info) ==
+    LET s == pr.s  N == NSeg(pr)  D == Len(X[1])
+        seg(i, col) ==
+            LET x == SegPoly(X, s, i, col)  y == SegPoly(Y, s, i, col)
+                mag == RMax(RMaxSeq([k \in 1..(2 * s) |-> RAbs(RMul(x[k], RPow(pr.T[i], k - 1)))]), RMaxSeq([j \in 1..(N + 1) |-> RAbs(x[1])]))
+                err == RMaxSeq([k \in 1..(2 * s) |-> RAbs(RMul(RSub(x[k], y[k]), RPow(pr.T[i], k - 1)))])
+            IN Cand(prop, code, RLe(err, RAdd(RMul(tol, mag), Tiny)), info @@ [i |-> i, col |-> col, err |-> RShow(err), mag |-> RShow(mag)])
+    IN [q \in 1..(N * D) |-> LET i == ((q - 1) \div D) + 1 IN seg(i, q - (i - 1) * D)]
+ColOf(M, j) == TLCEval([r \in 1..Len(M) |-> <<M[r][j]>>])
+Tol12 == RPow("10", -12)
+RelClose(x, y, tol) == RLe(RAbs(RSub(x, y)), RAdd(RMul(tol, RMax(RAbs(x), RAbs(y))), Tiny))
+
+\* C13: column j of the D-dimensional object a is the 1-D object b
+CoordCands(ev) ==
+    LET a == TLCEval(objs[ev.a].data)  b == TLCEval(objs[ev.b].data)
+        info == [order |-> a.order, dim |-> a.dim, N |-> NSeg(a.pr), coord |-> ev.j]
+    IN IF b.dim # 1 \/ NSeg(b.pr) # NSeg(a.pr) \/ a.order # b.order THEN <<Cand("C13", "coord.shape", FALSE, info)>>
+       ELSE CoefClose("C13", "coord.coef", a.pr, ColOf(a.C, ev.j), b.C, Tol6, info)
+            \o (IF ObsHas(ev.a, "prop") /\ ObsHas(ev.b, "prop")
+                THEN LET ga == obs[ev.a].prop  gb == obs[ev.b].prop
+                         nm == IF a.order = 3 THEN <<"p", "v">> ELSE IF a.order = 5 THEN <<"p", "v", "a">> ELSE <<"p", "v", "a", "j">>
+                         mg == RMaxSeq([r \in 1..Len(ga.inner) |-> RAbs(H(ga.inner[r][ev.j]))] \o <<RAbs(H(ga.gs.p[ev.j])), RAbs(H(ga.ge.p[ev.j]))>>)
+                         cl(x, y) == RLe(RAbs(RSub(H(x), H(y))), RAdd(RMul(Tol6, RMax(mg, RAbs(H(y)))), Tiny))
+                     IN <<Cand("C13", "coord.grad.inner", \A r \in 1..Len(ga.inner) : cl(ga.inner[r][ev.j], gb.inner[r][1]), info),
+                          Cand("C13", "coord.grad.boundary",
+                               \A q \in 1..Len(nm) : cl(ga.gs[nm[q]][ev.j], gb.gs[nm[q]][1]) /\ cl(ga.ge[nm[q]][ev.j], gb.ge[nm[q]][1]), info)>>
+                ELSE <<>>)
+\* C13: energy and duration gradients of a are the sums over the 1-D parts
+SumCands(ev) ==
+    LET a == TLCEval(objs[ev.a].data)
+        info == [order |-> a.order, dim |-> a.dim, N |-> NSeg(a.pr)]
+        parts == ev.parts
+        en == IF ObsHas(ev.a, "energy") /\ \A q \in 1..Len(parts) : ObsHas(parts[q], "energy")
+              THEN LET tot == RSum([q \in 1..Len(parts) |-> H(obs[parts[q]].energy)])
+                       ab == EnergyAbs(a.C, a.pr.s, a.pr.T)
+                   IN <<Cand("C13", "sum.energy", RLe(RAbs(RSub(H(obs[ev.a].energy), tot)), RAdd(RMul(Tol9, ab), Tiny)), info),
+                        Cand("C04", "energy.coordsum", RLe(RAbs(RSub(H(obs[ev.a].energy), tot)), RAdd(RMul(Tol9, ab), Tiny)), info)>>
+              ELSE <<>>
+        tg(field, code) ==
+              IF ObsHas(ev.a, field) /\ \A q \in 1..Len(parts) : ObsHas(parts[q], field)
+              THEN LET N == NSeg(a.pr)
+                       tot == [i \in 1..N |-> RSum([q \in 1..Len(parts) |-> H(obs[parts[q]][field].times[i])])]
+                       mg == [i \in 1..N |-> RSum([q \in 1..Len(parts) |-> RAbs(H(obs[parts[q]][field].times[i]))])]
+                   IN <<Cand("C13", code, \A i \in 1..N : RLe(RAbs(RSub(H(obs[ev.a][field].times[i]), tot[i])), RAdd(RMul(Tol6, RMax(mg[i], RMaxSeq(mg))), Tiny)), info)>>
+              ELSE <<>>
+    IN en \o tg("egrad", "sum.egrad.times") \o tg("prop", "sum.prop.times")
+\* C13: b was built from the inputs of a with coordinates permuted: b[:, j] = a[:, perm[j]]
+PermCands(ev) ==
+    LET a == TLCEval(objs[ev.a].data)  b == TLCEval(objs[ev.b].data)
+        info == [order |-> a.order, dim |-> a.dim, N |-> NSeg(a.pr)]
+        pm == ev.perm
+        Ap == TLCEval([r \in 1..Len(a.C) |-> [j \in 1..a.dim |-> a.C[r][pm[j]]]])
+    IN CoefClose("C13", "perm.coef", a.pr, Ap, b.C, Tol12, info)
+       \o (IF ObsHas(ev.a, "energy") /\ ObsHas(ev.b, "energy")
+           THEN <<Cand("C13", "perm.energy", RelClose(H(obs[ev.a].energy), H(obs[ev.b].energy), Tol12), info)>> ELSE <<>>)
+\* C14: b was built from a transformed problem
+XformCands(ev) ==
+    LET a == TLCEval(objs[ev.a].data)  b == TLCEval(objs[ev.b].data)
+        pr == a.pr  s == pr.s  N == NSeg(pr)  D == Dim(pr)
+        info == [order |-> a.order, dim |-> a.dim, N |-> N, kind |-> ev.kind]
+        kOf(r) == (r - 1) - ((r - 1) \div (2 * s)) * 2 * s
+        ea == IF ObsHas(ev.a, "energy") /\ ObsHas(ev.b, "energy") THEN <<H(obs[ev.a].energy), H(obs[ev.b].energy)>> ELSE <<>>
+        eab == EnergyAbs(a.C, s, pr.T)
+        en(f) == IF ea = <<>> THEN <<>> ELSE <<Cand("C14", "xform.energy." \o ev.kind, RLe(RAbs(RSub(ea[2], RMul(f, ea[1]))), RAdd(RMul(Tol6, RMul(RAbs(f), eab)), Tiny)), info)>>
+    IN CASE ev.kind = "shift" ->
+              <<Cand("C14", "shift.coefbits", a.coefbits = b.coefbits, info),
+                Cand("C14", "shift.knots",
+                     \A i \in 1..(N + 1) : RLe(RAbs(RSub(b.bp[i], RAdd(a.bp[i], H(ev.dt)))),
+                                                RMul(RInt(4 * N + 4), RMul(Eps, RMax(RMax(RAbs(a.bp[i]), RAbs(b.bp[i])), RAbs(H(ev.dt)))))), info)>>
+              \o (IF ea = <<>> THEN <<>> ELSE <<Cand("C14", "shift.energybits", obs[ev.a].energy = obs[ev.b].energy, info)>>)
+              \o (IF ObsHas(ev.a, "egrad") /\ ObsHas(ev.b, "egrad") THEN <<Cand("C14", "shift.egradbits", obs[ev.a].egrad = obs[ev.b].egrad, info)>> ELSE <<>>)
+         [] ev.kind = "translate" ->
+              CoefClose("C14", "xform.coef.translate", pr,
+                        TLCEval([r \in 1..Len(a.C) |-> IF kOf(r) = 0 THEN VAdd(a.C[r], HV(ev.v)) ELSE a.C[r]]), b.C, Tol6, info) \o en(One)
+         [] ev.kind = "scale" ->
+              CoefClose("C14", "xform.coef.scale", pr, TLCEval([r \in 1..Len(a.C) |-> VScale(H(ev.f), a.C[r])]), b.C, Tol6, info) \o en(RSq(H(ev.f)))
+         [] ev.kind = "tscale" ->
+              CoefClose("C14", "xform.coef.tscale", b.pr, TLCEval([r \in 1..Len(a.C) |-> VScale(RPow(H(ev.f), -kOf(r)), a.C[r])]), b.C, Tol6, info)
+              \o en(RPow(H(ev.f), -(2 * s - 1)))
+         [] ev.kind = "reverse" ->
+              CoefClose("C14", "xform.coef.reverse", b.pr, ReverseCoeffs(a.C, s, pr.T), b.C, Tol6, info) \o en(One)
+         [] OTHER -> <<Cand("INFRA", "xform.unknown", FALSE, info)>>
+
 TrNote ==
     /\ IsEvent("note")
     /\ LET ev == Ev
-           cands == IF Has(ev, "what") /\ ev.what = "same" THEN SameCands(ev) ELSE <<>>
-       IN /\ bad' = bad \o Devs(cands, ev)
-          /\ stats' = Bump(Bump(stats, "notes", 1), "judgements", Len(cands))
-    /\ UNCHANGED <<objs, memo, nexec>>
+           cands == IF ~Has(ev, "what") THEN <<>>
+                    ELSE CASE ev.what = "same" -> SameCands(ev)
+                           [] ev.what = "coord" -> CoordCands(ev)
+                           [] ev.what = "sum" -> SumCands(ev)
+                           [] ev.what = "perm" -> PermCands(ev)
+                           [] ev.what = "xform" -> XformCands(ev)
+                           [] OTHER -> <<>>
+       IN JudgeAll(cands, ev, Bump(stats, "notes", 1))
+    /\ UNCHANGED <<objs, memo, nexec, obs>>
     /\ Advance
 
 Known == {"prop", "epartial", "egrad", "prop_epartial", "note", "reset", "build", "state", "knots", "energy", "eval", "copy", "assign", "destroy"}
 TrUnknown ==
     /\ l <= Len(Tr) /\ Tr[l].e \notin Known
     /\ bad' = bad \o <<[prop |-> "INFRA", code |-> "unknown.event", info |-> [e |-> Tr[l].e], line |-> l, exec |-> nexec, obj |-> 0]>>
-    /\ UNCHANGED <<objs, memo, nexec, stats>>
+    /\ UNCHANGED <<objs, memo, nexec, stats, obs, worst>>
     /\ Advance
 
-TraceInit == /\ l = 1 /\ bad = <<>> /\ stats = [lines |-> Len(Tr)] /\ memo = << >> /\ nexec = 0 /\ ObjInit
+TraceInit == /\ worst = << >> /\ obs = << >> /\ l = 1 /\ bad = <<>> /\ stats = [lines |-> Len(Tr)] /\ memo = << >> /\ nexec = 0 /\ ObjInit
 TraceNext == TrProp \/ TrEPartial \/ TrEGrad \/ TrNote \/ TrReset \/ TrBuild \/ TrState \/ TrKnots \/ TrEnergy \/ TrEval \/ TrCopy \/ TrAssign \/ TrDestroy \/ TrUnknown
 TraceSpec == TraceInit /\ [][TraceNext]_tvars
 
@@ -440,6 +558,7 @@ TraceInv == ObjInv
 
 \* write the verdict when the whole trace has been consumed
 Done == l = Len(Tr) + 1
-Emit == Done => JsonSerialize(IOEnv.OUT, [bad |-> bad, stats |-> stats, lines |-> Len(Tr)])
+Emit == Done => JsonSerialize(IOEnv.OUT, [bad |-> bad, stats |-> stats, lines |-> Len(Tr),
+                                           worst |-> [k \in DOMAIN worst |-> RShow(worst[k])]])
 TraceAccepted == TLCGet("stats").diameter - 1 = Len(Tr)
 =============================================================================
